@@ -28,7 +28,7 @@ def tlc_cases(tier):
 
 def ratios(tier, seed):
     rnd = random.Random(seed)
-    base = [2.0, 1.6, 4.0, 1.5, 3.0, 1.1, 10.0]
+    base = [2.0, 1.6, 4.0, 1.5, 3.0, 1.1, 10.0, 1.64, 2.04]
     extra = [round(rnd.uniform(1.05, 10.0), 6) for _ in range(2 if tier == 'quick' else 8)]
     return base + extra
 
@@ -268,6 +268,6 @@ def run(tier, rep):
                     rule='one case per (method, n, order) emitted by TLC; non-trivial = rule with more than one weight',
                     **stats)
     assumptions = ['numpy/scipy arithmetic as executed', 'tolerances: 8*eps*cond(M)*sum|w||M| for moment equations, 64*eps*cond for end-to-end',
-                   'step ratios: fixed grid + %d seeded random reals in (1.05,10]' % (len(rts) - 7),
+                   'step ratios: fixed grid + %d seeded random reals in (1.05,10]' % (len(rts) - 9),
                    'ill-conditioned systems (cond*eps > 1e-4) are skipped and counted']
     return coverage, assumptions
